@@ -920,6 +920,15 @@ class EmptyReader(IndexReader):
 
         return EmptyCursor()
 
+    def column_reader(self, fieldname, column=None, reverse=False,
+                      translate=True):
+        fieldobj = self.schema[fieldname]
+        column = column or fieldobj.column_type
+        if not column:
+            raise Exception("No column for field %r in %r"
+                            % (fieldname, self))
+        return columns.EmptyColumnReader(column.default_value(reverse), 0)
+
     def indexed_field_names(self):
         return []
 
